@@ -133,6 +133,10 @@ def build_model(api, pop, feat, payloads=()):
         nodes.append(helper.make_node("Transpose", [last], ["tr1"], name="n_tr1", perm=[1, 0]))
         nodes.append(helper.make_node("Transpose", ["tr1"], ["tr2"], name="n_tr2", perm=[1, 0]))
         last = "tr2"
+    if "norev" in feat:
+        # Mish is new in opset 18: onnx's C API converter refuses 18 -> 17 ("No Previous Version of Mish exists")
+        nodes.append(helper.make_node("Mish", [last], ["mi"], name="n_mish"))
+        last = "mi"
     if "constif" in feat:
         # two If nodes with a constant condition; each taken branch owns an initializer "w" that shadows the
         # main-graph "w", and the first free-looking name "w_1" is taken as well: inlining must not disturb w / w_1
@@ -1038,7 +1042,7 @@ def run(ctx: core.Ctx):
     npay = part2(ctx, cases)
     ctx.set("distinct_nontrivial", len(nontriv) + npay)
     ctx.set("exhaustive", not ctx.quick)
-    ctx.set("rule", "part 1: cases = finished behaviours of ProtoIR.tla = api (13 entry points/argument forms, incl. convert_version(fallback=True) on two paths that take the ONNX C API) x switch set (17 populated carriers + 9 "
+    ctx.set("rule", "part 1: cases = finished behaviours of ProtoIR.tla = api (13 entry points/argument forms, incl. convert_version(fallback=True) on two paths that take the ONNX C API) x switch set (17 populated carriers + 10 "
                     "structural features of the host graph (incl. differently named symbolic dims joined by Identity, and constant Ifs whose "
                     "branches own a shadowing initializer); all sets with <=2 (quick) / <=3 (thorough) switches on and all with <=1 / <=2 off: "
                     "pairwise / 3-wise complete); each is built as a real ModelProto and run through the proto entry point, the IR entry point and "
